@@ -343,6 +343,16 @@ theorem C13_shared_no_policy (c0 hosts e : Nat) (sched : List ExecutorConc.Act) 
     m.sent ≤ ExecutorConc.started m.exs ∧ ExecutorConc.started m.exs ≤ e :=
   ExecutorConc.run_no_policy c0 hosts e sched
 
+/-- **where a query's idempotence comes from**: the statement-level setting wins, otherwise the session's
+    `DefaultIdempotence`; so a query of a session with `DefaultIdempotence = true` is speculated unless the
+    statement says `Idempotent(false)`, which makes it run as one execution whatever the policy -/
+theorem C13_query_idempotence_source (d v : Bool) (k : Nat) :
+    queryIdempotent d (some v) = v ∧ queryIdempotent d none = d ∧
+    maxExecutions (queryIdempotent true none) (k+1) = k + 2 ∧ maxExecutions (queryIdempotent d (some false)) k = 1 := by
+  refine ⟨rfl, rfl, ?_, ?_⟩
+  · simp [maxExecutions, queryIdempotent]; omega
+  · simp [maxExecutions, queryIdempotent]
+
 /-! ### the built-in policies' decisions on error VALUES (`ReqErr`: what `GetRetryType(err)` switches on) -/
 
 /-- **the decision table the executor theorems use is the policy's switch**: filing an error value under its
